@@ -384,7 +384,8 @@ def killed_and_rewritten_runs(ctx, d):
         os.makedirs(out_dir, exist_ok=True)
         out = os.path.join(out_dir, "trace.pkl.gz")
         code = ("import sys\nfrom phyclone.run import run\nrun(sys.argv[1], sys.argv[2], burnin=1, num_iters=10**7, num_particles=4, seed=%d, num_chains=%d, print_freq=1, grid_size=11, density='binomial')\n" % (seed, chains))
-        p = subprocess.Popen([sys.executable, "-u", "-c", code, in_file, out], env=env, stdout=subprocess.PIPE, stderr=subprocess.STDOUT, text=True)
+        # own session: the kill takes the run's worker processes with it (a SIGKILLed parent would leave them running)
+        p = subprocess.Popen([sys.executable, "-u", "-c", code, in_file, out], env=env, stdout=subprocess.PIPE, stderr=subprocess.STDOUT, text=True, start_new_session=True)
         t0, seen = time.time(), 0
         try:
             while time.time() - t0 < 240:
@@ -396,7 +397,10 @@ def killed_and_rewritten_runs(ctx, d):
                     if seen >= 12 * chains:
                         break
         finally:
-            p.send_signal(signal.SIGKILL)
+            try:
+                os.killpg(p.pid, signal.SIGKILL)
+            except (ProcessLookupError, PermissionError):
+                p.send_signal(signal.SIGKILL)
             p.wait()
         res = None
         if seen and os.path.exists(out):
